@@ -307,8 +307,8 @@ def run(ctx, widen=False):
     # every container flavour at depth: chains crossing the 16-byte indent cache
     for i in range(ctx.scale(250, 1500)):
         v = S("u", b"x")
-        for j in range(rng.randrange(6, 15)):
-            v = Obj([Field(S("u", b"k%d" % j), "=", v)]) if rng.random() < 0.6 else Arr([S("q", b"e"), v])
+        for j in range(rng.choice([rng.randrange(6, 15), rng.randrange(6, 15), rng.randrange(60, 72), rng.randrange(126, 131)])):
+            v = Obj([Field(S("u", b"k%d" % j), "=", v)]) if rng.random() < 0.6 else Arr([S("q", b"e"), v] + ([S("u", b"x"), S("u", b"y")] if rng.random() < 0.5 else []))
         d = typed_doc(rng, Doc([Field(S("u", b"r"), "=", v)]), floats)
         ccases.append("writer.calls\t%s\t%s" % (rcfg(rng), docgen.to_calls(d, rng))); cmeta.append(d)
     # known shape: an empty container as the first element of an array (the parser treats it as a ghost)
